@@ -730,6 +730,42 @@ func (sc *specCtx) evalCall(e *CallE) Val {
 		a := args(1)
 		r := sc.fc.regionIn(sc.st, sc.heap, "chan.closed", "(Array U Bool)")
 		return boolVal(sel(r, a[0].T))
+	case "local":
+		// local(x): the value a local variable of the function under verification has at this point
+		// (in a postcondition: at the return)
+		if id, ok := e.Args[0].(*Ident); ok && len(e.Args) == 1 {
+			if cell, ok := sc.st.names["&"+id.Name]; ok {
+				return sc.cellContent(cell)
+			}
+			if v, ok := sc.st.names[id.Name]; ok {
+				return v
+			}
+			specFail("local(%s): no such local variable is in scope here", id.Name)
+		}
+		specFail("local(NAME)")
+	case "boundrecv":
+		// boundrecv(f): the receiver a method value is bound to (unconstrained for other function values)
+		a := args(1)
+		sc.fc.declareFun(sc.st, "boundrecv", "(U) U")
+		return Val{T: app("boundrecv", a[0].T), S: SU}
+	case "addrof":
+		// addrof(NAME): the address of a package-level variable of the contract's package (e.g. a mutex)
+		if id, ok := e.Args[0].(*Ident); ok && len(e.Args) == 1 {
+			return Val{T: sc.fc.globalMutexAddr(sc.st, sc.pkg+"."+id.Name), S: SU}
+		}
+		specFail("addrof(NAME)")
+	case "global":
+		// global(NAME): the current value of a package-level variable of the contract's package
+		if id, ok := e.Args[0].(*Ident); ok && len(e.Args) == 1 {
+			rn := "global." + sc.pkg + "." + id.Name
+			srt, ok := sc.fc.regionSort[rn]
+			if !ok {
+				srt = "U"
+			}
+			r := sc.fc.regionIn(sc.st, sc.heap, rn, srt)
+			return Val{T: r, S: SU}
+		}
+		specFail("global(NAME)")
 	case "deref":
 		// deref(p): the value a pointer to a local cell (captured variable) holds
 		a := args(1)
